@@ -1,6 +1,7 @@
 """C20 — sequence gaps are recovered with a conformant counterparty."""
 from ..facts import Program, AnalysisBroken
 from .. import q
+from . import c19
 
 CLAIM = {
     'text': 'Control-dependence and decision rules on the receive counter: its per-message increment in Session::process must depend on '
@@ -17,7 +18,7 @@ EXPLANATION = (
     "Decided: R20.1 the main-path `++_next_receive_seq` of Session::process is control-dependent on a decision that mentions the "
     "message's sequence number (comparison with the expected number, or the enforce/sequence_check verdict); R20.2 "
     "handle_sequence_reset: case split on NewSeqNo vs expected covers >=/< ; '>=' assigns expected := NewSeqNo - 1 and process() adds "
-    "exactly 1 afterwards; '<' only throws; R20.3 in sequence_check no throw is reachable in the seqnum > expected case. "
+    "exactly 1 afterwards; '<' only throws; R20.3 in sequence_check no throw is reachable in the seqnum > expected case; R20.4 a PossDup replay is refused only for OrigSendingTime strictly after SendingTime (rule of C19 R19.2). "
     "NOT decided: histories, replays, delivery.")
 
 S = 'FIX8::Session::'
@@ -143,4 +144,7 @@ def run(ctx):
               'seqnum > expected outside state continuous throws %s (session terminated for a sequence reason; a Logon carrying a '
               'higher number cannot be recovered)' % (thr[0].children[0].tstr if thr else ''),
               [t.loc for t in thr])
+    # R20.4 replayed messages (PossDup, number below the expected one) are refused only when OrigSendingTime is strictly later than SendingTime
+    c19.origsendingtime_rule(ctx, sc, 'R20.4')
+    ctx.floor('R20.4', 2)
     ctx.floor('R20.2', 4)
